@@ -61,12 +61,20 @@ type Step struct {
 	Req   *nfsx.Req
 	Obs   *nfsx.Obs
 	Calls []specfs.Call
+	NH    int
 	Dump  []specfs.Entry
 }
 
 func (s *Step) Coq() string {
-	return fmt.Sprintf("{| i_step := {| hs_adv := %d; hs_cred := %s; hs_req := %s |}; i_rpc := %d; i_obs := %s; i_calls := %s; i_dump := %s |}",
-		s.AdvNs, nfsx.CoqCred(s.Cred), s.Req.Coq(), s.Obs.RPC, s.Obs.Coq(), nfsx.CoqCalls(s.Calls), nfsx.CoqDump(s.Dump))
+	var raw []string
+	for _, c := range s.Calls {
+		raw = append(raw, CBytes([]byte(c.Path)))
+		if c.Op == "Rename" {
+			raw = append(raw, CBytes([]byte(c.Path2)))
+		}
+	}
+	return fmt.Sprintf("{| i_step := {| hs_adv := %d; hs_cred := %s; hs_req := %s |}; i_rpc := %d; i_obs := %s; i_calls := %s; i_raw := %s; i_nh := %d; i_dump := %s |}",
+		s.AdvNs, nfsx.CoqCred(s.Cred), s.Req.Coq(), s.Obs.RPC, s.Obs.Coq(), nfsx.CoqCalls(s.Calls), CList(raw), s.NH, nfsx.CoqDump(s.Dump))
 }
 func (s *Step) Text() string {
 	adv := ""
@@ -80,18 +88,25 @@ func (s *Step) Text() string {
 type Session struct {
 	Cfg   Cfg
 	Env   *nfsx.Env
+	Init  []specfs.Entry
 	Steps []*Step
 	// what the generator knows
 	Handles []uint64
 	Tags    map[string]int
 }
 
-func NewSession(c Cfg) *Session {
+// NewSession builds a server over a fresh specfs; populate (optional) fills the backend directly
+// (not through the server) before the first request.
+func NewSession(c Cfg, populate func(fs *specfs.FS)) *Session {
 	env, err := nfsx.NewEnv(c.Opts(), c.MaxHand)
 	if err != nil {
 		panic(err)
 	}
-	return &Session{Cfg: c, Env: env, Tags: map[string]int{}}
+	if populate != nil {
+		populate(env.FS)
+		env.FS.TakeLog()
+	}
+	return &Session{Cfg: c, Env: env, Init: env.FS.Dump(false), Tags: map[string]int{}}
 }
 
 func (s *Session) Do(advNs int64, c nfsx.Cred, r *nfsx.Req) *Step {
@@ -100,7 +115,7 @@ func (s *Session) Do(advNs int64, c nfsx.Cred, r *nfsx.Req) *Step {
 	}
 	s.Env.FS.TakeLog()
 	o := s.Env.Do(c, r)
-	st := &Step{AdvNs: advNs, Cred: c, Req: r, Obs: o, Calls: s.Env.FS.TakeLog(), Dump: s.Env.FS.Dump(false)}
+	st := &Step{AdvNs: advNs, Cred: c, Req: r, Obs: o, Calls: s.Env.FS.TakeLog(), NH: s.Env.NFS.VerifFileMap().Count(), Dump: s.Env.FS.Dump(false)}
 	s.Steps = append(s.Steps, st)
 	add := func(h uint64) {
 		for _, x := range s.Handles {
@@ -139,7 +154,7 @@ func (s *Session) Case(kind string, idx int) Case {
 		txt[i] = fmt.Sprintf("%d: %s", i, st.Text())
 	}
 	s.Tags["steps"] = len(s.Steps)
-	coq := fmt.Sprintf("{| c_cfg := %s; c_maxh := %s; c_steps := %s |}", s.Cfg.Coq(), CZ(int64(s.Cfg.MaxHand)), CList(steps))
+	coq := fmt.Sprintf("{| c_cfg := %s; c_maxh := %s; c_init := %s; c_steps := %s |}", s.Cfg.Coq(), CZ(int64(s.Cfg.MaxHand)), nfsx.CoqDump(s.Init), CList(steps))
 	s.Env.Close()
 	return Case{Index: idx, Kind: kind, Coq: coq, Tags: s.Tags, Text: "cfg: " + s.Cfg.Text() + "\n" + strings.Join(txt, "\n")}
 }
